@@ -283,6 +283,12 @@ def family_order(cat):
     cat.add("order", ll, order=(1, 1, 2, 2))
     cat.add("order", ll, order=(3, 2))
     cat.add("order", ll, order=())
+    # the filter of a lookup ends with the lookup: an unflagged lookup that acts on a mark, or matches across one,
+    # after a lookup that ignores marks (and the other way round)
+    ll2 = [lookup([lig({1: [([2], 3)]})], flags=["mark"]), lookup([single({4: 5})]), lookup([lig({1: [([2], 6)]})]),
+           lookup([single({4: 5, 1: 2})], flags=["base"])]
+    for order in ((1, 2), (1, 3), (2, 1), (3, 1), (1, 2, 3), (4, 2), (4, 3), (1, 4, 2), (4, 1, 3)):
+        cat.add("order", ll2, order=order)
 
 
 CHILDREN = {
